@@ -7,10 +7,14 @@ that is computed here from what the in-memory back end handed to the tuning loop
 given (nothing of the reference is read from the objects under test).
 
 Part A  real ``Tuner`` on an in-memory ``TrialBackend``:
-        * scripted fixed-list scheduler: 17 structural shapes (plain, trial failing without / after results, STOP with a
+        * scripted fixed-list scheduler: 21 structural shapes (plain, trial failing without / after results, STOP with a
           result of the same batch handed to the loop but never delivered, PAUSE + resume with changed / same
           configuration, PAUSE for good, NaN values, late / missing metrics, equal optima, one result, no result at all,
-          back-end supplied tuner time, stop criterion leaving trials running, text column, integer metrics) x metric
+          back-end supplied tuner time, stop criterion leaving trials running, text column, integer metrics, and the
+          exit paths of ``Tuner.run`` that end in an exception: abort because more than ``max_failures`` trials failed
+          (max_failures 1 and 0, results delivered before / between / after the failures), exception raised by the
+          scheduler in ``on_trial_result`` / in ``suggest``; the expected exception is caught and the file on disk
+          must still hold exactly the delivered rows, in order) x metric
           variants (1-3 metrics, mode a string or a list) x n_workers x burst (results released per poll) x
           results_update_interval (with a controlled clock: interval elapsed at chosen polls / never), plus
           seed-dependent random scripts;
@@ -33,14 +37,15 @@ was handed (must not be a finite number); sum once a NaN was handed (NaN or the 
 configuration when no number was handed for the chosen metric; how an empty table is stored; sums whose partial sums
 leave the range of a double.
 
-Two clauses are refuted on the pinned tree (genuine defects, each under a clause name of its own so that every other
-clause keeps being checked):
-  * run-end-summary-...[modes-declared-as-list]: ``Tuner.run`` hands ``scheduler.metric_mode()`` -- a list for
-    multi-objective schedulers -- to ``print_best_metric_found``, which only tests ``mode == "min"``; the first metric is
-    then maximised, so for modes ["min", ...] the summary reports the WORST trial as best.
-  * read-back-keeps-text-values-spelled-like-missing-value-markers: ``load_experiment`` uses ``pd.read_csv`` with the
-    default NA markers, so a categorical hyper-parameter / text metric with the value "None", "NA", "", "null", ... is
-    read back as NaN (also in ``ExperimentResult.best_config``).
+Every exit path of ``Tuner.run`` (search space exhausted, stop criterion met, abort by failures, scheduler exception) must
+be taken at least once with rows that only ``on_tuning_end`` can write (update interval never elapsed), otherwise the
+monitor raises.  Statistics / best-trial clauses are not evaluated after a scheduler exception (the tuning status of
+the interrupted iteration is not final).
+
+History: the first version refuted two clauses on the pinned tree; both defects were repaired in /repo since (the run-end
+summary for a LIST of modes; ``load_experiment`` reading 'None', 'NA', 'null', ... back as NaN).  What remains, under a
+clause of its own (recorded known finding): read-back-keeps-the-empty-string-as-a-text-value -- an empty-string text
+value cannot be told from a missing cell in CSV.
 
 Bounded stand-in, never counted as proved.
 """
